@@ -1060,13 +1060,34 @@ namespace Loops
 def prevPow2 (n : Nat) : Nat := if n = 0 then 0 else 1 <<< (64 - Tbx.Gen.leadingZeros64 n - 1)
 
 """
+CALLS["crate::math::prev_power_of_two"] = ("Tbx.Gen.Loops.prevPow2", "N")
+
+
+PINNED = os.path.join(VERIF, "tools", "pinned_loops.json")
+
+
+def tie_theorems(names, sub):
+    out, prev = [], ["fenwickLsb_cur", "pidLevel_cur", "pidParent_cur"]
+    for l in names:
+        a, b = f"Tbx.GenCur.{sub}{l}", f"Tbx.Gen.{sub}{l}"
+        rw = "simp only [" + ", ".join(prev) + "]"
+        out.append(f"theorem {l}_cur : @{a} = @{b} := by\n  unfold {a} {b}\n  first | ({rw}) | rfl")
+        prev.append(f"{l}_cur")
+    return "\n".join(out)
 
 
 def main():
-    parts, done, skipped = [PRELUDE], [], []
+    """writes lean/Tbx/Gen/Loops.lean with two namespaces (see tools/translate.py): `Tbx.Gen.Loops` = translation of
+    the pinned commit (tools/pinned_loops.json; the tie theorems GenLoops*.lean and nothing else build on it),
+    `Tbx.GenCur.Loops` = translation of the current source; lean/Tbx/Gen/LoopsCurTie.lean proves them equal by rfl"""
+    done, skipped, raw = [], [], {}
+    try:
+        pinned = json.load(open(PINNED))
+    except Exception:
+        pinned = {}
     for spec in WL:
         try:
-            parts.append(translate(dict(spec)))
+            raw[spec["lean"]] = translate(dict(spec))
             done.append(spec["lean"])
         except Skip as e:
             if os.environ.get("TBX_TRANSLATE_DEBUG"):
@@ -1075,13 +1096,29 @@ def main():
             skipped.append({"fn": spec["fn"], "why": str(e)})
         except (KeyError, IndexError, TypeError) as e:
             skipped.append({"fn": spec["fn"], "why": f"translator error {type(e).__name__}: {e}"})
-    parts.append("end Loops\nend Tbx.Gen\n")
-    new = "\n".join(parts)
+    if "--pin" in sys.argv:
+        json.dump(raw, open(PINNED, "w"), indent=1)
+        print(json.dumps({"pinned": sorted(raw)}))
+        return
+    order = [spec["lean"] for spec in WL]
+    pin_defs = [pinned.get(l, raw.get(l)) for l in order if pinned.get(l, raw.get(l)) is not None]
+    cur = [raw[l] for l in order if l in raw]
+    cur_txt = "\n".join(cur)
+    for name in ("Tbx.Gen.Loops.choose", "Tbx.Gen.fenwickLsb", "Tbx.Gen.pidLevel", "Tbx.Gen.pidParent"):
+        cur_txt = cur_txt.replace(name, name.replace("Tbx.Gen.", "Tbx.GenCur.", 1))
+    new = (PRELUDE + "\n".join(pin_defs) + "\nend Loops\nend Tbx.Gen\n\n"
+           "namespace Tbx.GenCur.Loops\nopen Tbx.Gen.Loops (prevPow2)\n\n" + cur_txt + "\nend Tbx.GenCur.Loops\n")
     old = open(OUT).read() if os.path.exists(OUT) else None
     if new != old:
         with open(OUT, "w") as f:
             f.write(new)
-    print(json.dumps({"translated": done, "skipped": skipped, "changed": new != old}))
+    tie = ("/- GENERATED by tools/translate2.py. Do not edit. -/\nimport Tbx.Gen.Loops\nimport Tbx.Gen.CurTie\nset_option linter.unusedSimpArgs false\nnamespace Tbx.Gen.LoopsCurTie\n\n" +
+           "open Tbx.Gen.CurTie\n" + tie_theorems([l for l in order if l in raw], "Loops.") +
+           "\n\nend Tbx.Gen.LoopsCurTie\n")
+    tp = os.path.join(os.path.dirname(OUT), "LoopsCurTie.lean")
+    if not os.path.exists(tp) or open(tp).read() != tie:
+        open(tp, "w").write(tie)
+    print(json.dumps({"translated": done, "skipped": skipped, "fallback": [x["fn"] for x in skipped], "changed": new != old}))
 
 
 if __name__ == "__main__":
